@@ -20,7 +20,7 @@ var branchSets = [][]string{
 	{"└", "·", "├", "│──"},
 }
 
-var extSets = [][]string{nil, {".go"}, {".txt", ".md"}, {"Makefile"}, {"go", ".go"}, {""}, {".tar.gz", ".gz"}, {"Makefile", "file"}, {".GO", ".go", ".txt"}}
+var extSets = [][]string{nil, {".go"}, {".txt", ".md"}, {"Makefile"}, {"go", ".go"}, {""}, {".tar.gz", ".gz"}, {"Makefile", "file"}, {".GO", ".go", ".txt"}, {".go", ".txt", ".go"}}
 
 // genOp draws an operation. fsOK: allow operations with filesystem effects.
 func genOp(c *Ctx, massive bool) Op {
@@ -103,6 +103,7 @@ type massiveScenario struct {
 	manyRoots bool
 	invalidName bool
 	bigRoots bool
+	missingTarget bool
 }
 
 func (s *massiveScenario) describe(c *Ctx) {
@@ -246,6 +247,9 @@ func genMassiveScenario(c *Ctx, arm string, nMalformMax int) *massiveScenario {
 	if s.op.Kind == "verify" {
 		s.verifyState = []string{"exact", "missing-some", "extra-some", "empty"}[c.Pick(3, 2, 2, 1)]
 	}
+	if s.op.Kind == "mkdir" && c.Chance(1, 4) {
+		s.missingTarget = true
+	}
 	return s
 }
 
@@ -256,7 +260,11 @@ func (s *massiveScenario) prepareTarget(c *Ctx, salt int) *DiskPlan {
 	}
 	j := newJail()
 	target := filepath.Join(j, "target")
-	os.MkdirAll(target, 0o755)
+	if s.op.Kind == "mkdir" && len(s.preexist) == 0 && s.missingTarget {
+		target = filepath.Join(j, "not", "yet", "there") // created by the call itself
+	} else {
+		os.MkdirAll(target, 0o755)
+	}
 	for i, n := range s.preexist {
 		p := filepath.Join(target, n)
 		if s.preKind[i] == "d" {
@@ -499,14 +507,17 @@ func genFaultPlan(c *Ctx, op Op, docLen int, allowNone bool) *faultPlan {
 	}
 	if allowNone && c.Chance(1, 6) {
 		n = 0
+		if c.Chance(1, 2) {
+			f.ctx = CtxPlan{Mode: "own"}
+		}
 	}
 	for i := 0; i < n; i++ {
 		switch c.Pick(6, 1, 1, 3, 3, 2, 2) {
 		case 0:
-			f.ctx = CtxPlan{Mode: "cancel", AtStep: c.Draw(420)}
+			f.ctx = CtxPlan{Mode: "cancel", AtStep: c.Draw(420), Custom: c.Draw(4) == 0}
 			f.kinds = append(f.kinds, "cancel")
 		case 1:
-			f.ctx = CtxPlan{Mode: "pre"}
+			f.ctx = CtxPlan{Mode: "pre", Custom: c.Draw(4) == 0}
 			f.kinds = append(f.kinds, "precancelled")
 		case 2:
 			f.ctx = CtxPlan{Mode: "deadline", AtStep: c.Draw(420)}
@@ -662,6 +673,9 @@ func judgeC11(c *Ctx, s *massiveScenario, arm, ctxMode string, ref *Outcome, ref
 	if len(got.Leaks) > 0 {
 		c.Failf("C11:leak:"+leakSig(got), "the call returned %s but %d goroutine(s) it started never finished:\n%s", errStr(got.Err), len(got.Leaks), leakDetail(got))
 	}
+	if got.Untracked > 0 {
+		c.Failf("C11:leak:goroutine-outside-the-pipeline:"+s.op.Kind, "the call returned %s; every pipeline goroutine has finished, but %d goroutine(s) started during the call (by library code below gtree, e.g. package context watching the caller's context) are still there", errStr(got.Err), got.Untracked)
+	}
 	if len(got.Races) > 0 {
 		c.Failf("C11:race:"+raceSig(got.Races[0]), "%s", strings.Join(got.Races, "\n"))
 	}
@@ -764,7 +778,7 @@ func genBytes(c *Ctx) (string, []byte) {
 	case 0:
 		return "empty", nil
 	case 1:
-		bl := []string{"\n", " ", "\n\n\n", "  \n\t\n", "\r\n", " \n \n"}
+		bl := []string{"\n", " ", "\n\n\n", "  \n\t\n", "\r\n", " \n \n", "\u3000\n", "\u00a0 \u2003\n\n", "\u0085"}
 		return "blank-only", []byte(bl[c.Draw(len(bl))])
 	case 2:
 		// grammar-aware mutation of a valid document
@@ -805,6 +819,11 @@ func genBytes(c *Ctx) (string, []byte) {
 				lines = append([]string{"    - indented first"}, lines...)
 			case 11:
 				lines[li] = ""
+			}
+			if c.Draw(15) == 0 && len(lines) > 0 {
+				// a blank line made of non-ASCII white space
+				li2 := c.Draw(len(lines) + 1)
+				lines = append(lines[:li2], append([]string{[]string{"\u3000", "\u00a0\u2003", "\u0085 "}[c.Draw(3)]}, lines[li2:]...)...)
 			}
 			if c.Draw(12) == 0 && len(lines) > 0 {
 				// a long row of multi-byte runes without a bullet; a whitespace-only first line
@@ -860,7 +879,11 @@ func caseC12(c *Ctx) {
 	if needsFS(op) {
 		j := newJail()
 		target := filepath.Join(j, "a", "b", "target") // two spare levels absorb ".." names inside the jail
-		os.MkdirAll(target, 0o755)
+		if op.Kind == "verify" && c.Chance(1, 4) {
+			os.MkdirAll(filepath.Dir(target), 0o755) // the target itself does not exist
+		} else {
+			os.MkdirAll(target, 0o755)
+		}
 		d = &DiskPlan{Jail: j, Target: target, FailAt: -1}
 		defer removeJail(j)
 	}
